@@ -76,8 +76,8 @@ namespace
   // multipliers applied to the previously *fed* defect; 100/101 = NaN / Inf
   const double MULT[] = {0.0, 1e-9, 0.5, 0.95, 0.96, 1.0, 2.0, 1e20};
   const int NMULT = 8, SYM_NAN = 8, SYM_INF = 9, NSYM = 10;
-  const double INIT[] = {0.0, 1e-40, 1e-20, 1e-4, 1e-3, 1.0};
-  const int NINIT = 6;
+  const double INIT[] = {0.0, 1e-40, 1e-20, 1e-4, 1e-3, 1.0, 1e-310 /* denormal */, 1e150 /* x*x overflows in norm2 */};
+  const int NINIT = 8;
 
   inline double next_fed(double prev, int sym)
   {
@@ -192,8 +192,8 @@ int main(int argc, char** argv)
     "simplest first; inside a case BFS over all histories of {defect step via _set_new_defect(vector), via _update_defect(norm), start a new solve} "
     "replayed on a fresh scripted IterativeSolver, deduplicated by (status,num_iter,num_stag_iter,def_init,def_cur,def_prev,last fed defect). "
     "Every case is non-trivial (hash = configuration); a state is terminal (only 'new solve' follows) when status != progress";
-  spec.bounds_quick = "min_iter 0..2, max_iter 0..3, min_stag_iter 0..2, tol_rel {1e-8,0.5}, tol_abs {default,0.1}, tol_abs_low {0,1e-3}, div_rel {default,10}, "
-    "div_abs {default,100}, defmode {skip allowed, no skip, skip+plot interval 2}, d0 {0,1e-40,1e-20 (between eps^2 and eps),1e-4,1e-3 (= tol_abs_low),1}; steps x{0,1e-9,.5,.95,.96,1,2,1e20},NaN,Inf; depth 6 (every case reaches its fixpoint: the whole reachable state space is explored)";
+  spec.bounds_quick = "min_iter 0..2, max_iter 0..3, min_stag_iter 0..2, tol_rel {1e-8,0.5,0,1}, tol_abs {default,0.1}, tol_abs_low {0,1e-3}, div_rel {default,10}, "
+    "div_abs {default,100}, defmode {skip allowed, no skip, skip+plot interval 2}, d0 {0,1e-40,1e-20 (between eps^2 and eps),1e-4,1e-3 (= tol_abs_low),1,1e-310 (denormal),1e150 (norm2 overflows)}; steps x{0,1e-9,.5,.95,.96,1,2,1e20},NaN,Inf; depth 6 (every case reaches its fixpoint: the whole reachable state space is explored)";
   spec.bounds_thorough = "additionally max_iter 5 and min_stag_iter 3; depth 8 (every case reaches its fixpoint)";
   spec.assumptions = {
     "reference automaton R1 transcribed by hand from the documentation/comments of kernel/solver/iterative.hpp (criterion formula at _tol_rel, "
@@ -216,7 +216,7 @@ int main(int argc, char** argv)
     for(int i_dr = 0; i_dr < 2; ++i_dr)
     for(int i_tal = 0; i_tal < 2; ++i_tal)
     for(int i_ta = 0; i_ta < 2; ++i_ta)
-    for(int i_tr = 0; i_tr < 2; ++i_tr)
+    for(int i_tr = 0; i_tr < 4; ++i_tr)
     for(Index min_stag = 0; min_stag < n_stag; ++min_stag)
     for(int i_mx = 0; i_mx < n_maxit; ++i_mx)
     for(Index min_iter = 0; min_iter < 3; ++min_iter)
@@ -226,7 +226,7 @@ int main(int argc, char** argv)
       const Index max_iter = MAXIT[i_mx];
       Cfg cfg;
       cfg.min_iter = min_iter; cfg.max_iter = max_iter; cfg.min_stag = min_stag;
-      cfg.tol_rel = i_tr ? 0.5 : 1e-8;
+      cfg.tol_rel = (i_tr == 0) ? 1e-8 : (i_tr == 1) ? 0.5 : (i_tr == 2) ? 0.0 : 1.0;   // including exactly 0 and exactly 1
       cfg.tol_abs_default = !i_ta; cfg.tol_abs = i_ta ? 0.1 : DEF_TOL_ABS;
       cfg.tol_abs_low = i_tal ? 1e-3 : 0.0;
       cfg.div_rel_default = !i_dr; cfg.div_rel = i_dr ? 10.0 : DEF_DIV_REL;
